@@ -97,6 +97,7 @@ fn collision_sound(prop: &str, sig: &str) -> bool {
 
 pub fn check_trace(s: &Script, tr: &Trace, rep: &mut Report) -> Outcome {
     let mut out = Outcome { reclaimed: 0, evicted_for_room: 0, rejected: 0, clears: 0, ticks: 0, lookups: 0, updates: 0, vetoes: 0, out_of_domain: false };
+    crate::val::INDEX_BASE.store(s.index_base, std::sync::atomic::Ordering::SeqCst);
     let kb = Kb { collide: s.cfg.collide, zero_even: s.cfg.collide_zero_even };
     let collide = s.cfg.collide;
     let overhead: i64 = if s.cfg.ignore_internal { 0 } else { tr.item_size as i64 };
@@ -125,11 +126,14 @@ pub fn check_trace(s: &Script, tr: &Trace, rep: &mut Report) -> Outcome {
     let mut ring_pending: Vec<u64> = Vec::new();
     let mut applied_counts: HashMap<u64, u64> = HashMap::new();
     let mut w_model: u64 = 0;
+    // look-ups applied to the estimator since the last clear(): no estimate can exceed it
+    let mut applied_since_clear: u64 = 0;
     let (mut kept_total, mut applied_total, mut applied_at_prev_push) = (0u64, 0u64, 0u64);
     let is_sync = !tr.flavor.is_async();
 
     if let Some(e) = &tr.build_err {
         rep.violate("C20", "build/refused-valid-config", format!("builder refused a valid configuration: {e}"), s.describe(0));
+        crate::val::INDEX_BASE.store(0, std::sync::atomic::Ordering::SeqCst);
         return out;
     }
 
@@ -440,6 +444,7 @@ pub fn check_trace(s: &Script, tr: &Trace, rep: &mut Report) -> Outcome {
                     applied_total += 1;
                     for k in keys {
                         *applied_counts.entry(*k).or_insert(0) += 1;
+                        applied_since_clear += 1;
                         w_model += 1;
                         if w_model >= s.cfg.num_counters as u64 {
                             w_model = 0;
@@ -451,11 +456,24 @@ pub fn check_trace(s: &Script, tr: &Trace, rep: &mut Report) -> Outcome {
                 observe::Ev::Clear { .. } => {
                     w_model = 0;
                     applied_counts.clear();
+                    applied_since_clear = 0;
                 }
                 _ => {}
             }
         }
         check_estimates!();
+        // C11: after a clear() the estimator is that of a fresh cache: an estimate (read at the start of
+        // this record) cannot exceed the number of look-ups applied to it since that clear
+        if out.clears > 0 {
+            for k in 0..s.universe {
+                let est = o.probe.est[k as usize];
+                rep.count("ls_c11_estimate_bound_checks");
+                if est > applied_since_clear as i64 {
+                    fail!("C11", "clear/popularity-survives", "estimate(k{k}) = {est}, but only {applied_since_clear} look-ups have been applied to the estimator since the last clear(): popularity recorded before the clear is still there");
+                    break;
+                }
+            }
+        }
         // ------------------------------------------------------------------ callbacks of this step
         // the charged total before this step, as the policy itself had it at the previous quiescent point
         let mut used_model: i128 = if oi == 0 { 0 } else { tr.obs[oi - 1].snap.used as i128 };
@@ -823,5 +841,6 @@ pub fn check_trace(s: &Script, tr: &Trace, rep: &mut Report) -> Outcome {
     if let Some(e) = &tr.close_err {
         rep.violate("C12", "close/error", format!("close() returned an error after a lockstep history: {e}"), s.describe(s.steps.len()));
     }
+    crate::val::INDEX_BASE.store(0, std::sync::atomic::Ordering::SeqCst);
     out
 }
